@@ -50,93 +50,85 @@ func (w *World) funcValueOf(obj types.Object) *ssa.Function {
 }
 
 type opDispatch struct {
-	Switch *switchInfo
-	// op label -> function object assigned in the inner switch (nil when the
-	// case builds its query without a per-operator function)
+	Builder *ssa.Function // the operator builder
+	// op -> function object bound to the operator (nil when the query is built without a per-operator function)
 	Func map[string]types.Object
-	// op label -> query type built
+	Fn   map[string]*ssa.Function
+	// op -> query type built
 	Type map[string]string
-	// labels of outer cases
-	Outer [][]string
-	Inner map[string][]string // first outer label -> inner labels
+	// op -> constant bool fields of the built object ("IsOr" -> true)
+	Flags map[string]map[string]bool
+	// query type -> field receiving the query built from the left / right operand
+	Left, Right map[string]string
+	// op -> the func-typed field of the built object is nil
+	NilFunc map[string]bool
+	NilNil  map[string]bool
+	Ops     []string
 }
 
-// operatorSwitch: the string switch of the builder whose cases build query
-// literals with two query-typed fields filled from the same two locals.
+// operatorSwitch: the operator table of the builder, read off by following the
+// operator builder with each operator string (builder_absint.go).
 func (w *World) operatorSwitch() *opDispatch {
-	var best *switchInfo
-	for _, si := range w.stringSwitches() {
-		ax := w.axisSwitch()
-		if ax != nil && si.Stmt == ax.Stmt {
-			continue
-		}
-		n := 0
-		for _, c := range si.Cases {
-			for _, l := range w.queryLits(c.Clause) {
-				nq := 0
-				for _, e := range l.Elts {
-					if kv, ok := e.(*ast.KeyValueExpr); ok {
-						if tv, ok := w.Info.Types[kv.Value]; ok && w.isQueryType(tv.Type) {
-							nq++
-						}
-					}
-				}
-				if nq == 2 {
-					n++
-				}
-			}
-		}
-		if n >= 3 && len(si.Cases) <= 6 && (best == nil || n > 0) {
-			// outermost switch of this shape
-			if best == nil || si.Stmt.Pos() < best.Stmt.Pos() && si.Func == best.Func {
-				best = si
-			}
-		}
+	if w.opDispatchCache != nil {
+		return w.opDispatchCache
 	}
-	if best == nil {
+	ob, br, err := w.operatorBuilds()
+	if err != nil {
 		return nil
 	}
-	od := &opDispatch{Switch: best, Func: map[string]types.Object{}, Type: map[string]string{}, Inner: map[string][]string{}}
-	for _, c := range best.Cases {
-		od.Outer = append(od.Outer, c.Labels)
-		lits := w.queryLits(c.Clause)
-		tname := ""
-		if len(lits) > 0 {
-			tname = w.litNamed(lits[0]).Obj().Name()
-		}
-		for _, l := range c.Labels {
-			od.Type[l] = tname
-		}
-		// inner switch on the same tag
-		ast.Inspect(c.Clause, func(x ast.Node) bool {
-			sw, ok := x.(*ast.SwitchStmt)
-			if !ok || sw == best.Stmt {
-				return true
+	od := &opDispatch{Builder: br.OpB, Func: map[string]types.Object{}, Fn: map[string]*ssa.Function{}, Type: map[string]string{}, Flags: map[string]map[string]bool{},
+		Left: map[string]string{}, Right: map[string]string{}, NilFunc: map[string]bool{}, NilNil: map[string]bool{}, Ops: br.Ops}
+	for _, op := range br.Ops {
+		for _, o := range ob[op] {
+			if o.NilNil {
+				od.NilNil[op] = true
 			}
-			for _, s := range sw.Body.List {
-				cc := s.(*ast.CaseClause)
-				for _, e := range cc.List {
-					lab, ok := w.constStr(e)
-					if !ok {
-						continue
-					}
-					od.Inner[c.Labels[0]] = append(od.Inner[c.Labels[0]], lab)
-					for _, st := range cc.Body {
-						if as, ok := st.(*ast.AssignStmt); ok && len(as.Rhs) == 1 {
-							if id, ok := as.Rhs[0].(*ast.Ident); ok {
-								if obj := w.Info.Uses[id]; obj != nil {
-									if _, isSig := obj.Type().Underlying().(*types.Signature); isSig {
-										od.Func[lab] = obj
-									}
-								}
-							}
+			if !o.Accepted || o.Result.Kind != avPtr {
+				continue
+			}
+			obj := o.St.obj(o.Result.Obj)
+			nm, _ := obj.Type.(*types.Named)
+			st, ok := obj.Type.Underlying().(*types.Struct)
+			if nm == nil || !ok {
+				continue
+			}
+			tn := nm.Obj().Name()
+			od.Type[op] = tn
+			for i := 0; i < st.NumFields(); i++ {
+				f := st.Field(i)
+				v, have := obj.Fields[i]
+				if sig, isSig := f.Type().Underlying().(*types.Signature); isSig && sig.Params().Len() >= 2 {
+					// (iterator closures kept as state have no parameters and are nil in a fresh query)
+					if have && v.Kind == avFunc {
+						od.Fn[op] = v.Fn
+						if strings.HasPrefix(v.Tag, "var:") {
+							od.Func[op] = w.Types.Scope().Lookup(strings.TrimPrefix(v.Tag, "var:"))
+						} else if v.Fn.Object() != nil {
+							od.Func[op] = v.Fn.Object()
 						}
+					} else {
+						od.NilFunc[op] = true
 					}
 				}
+				if !have {
+					continue
+				}
+				if b, ok := v.Bool(); ok {
+					if od.Flags[op] == nil {
+						od.Flags[op] = map[string]bool{}
+					}
+					od.Flags[op][f.Name()] = b
+				}
+				if v.Tag == "q:left" {
+					od.Left[tn] = f.Name()
+				}
+				if v.Tag == "q:right" {
+					od.Right[tn] = f.Name()
+				}
 			}
-			return false
-		})
+		}
 	}
+	w.opDispatchCache = od
 	return od
 }
 
@@ -172,38 +164,27 @@ func ruleAOps(w *World, r *Report) {
 	}
 	od := w.operatorSwitch()
 	if od == nil {
-		r.bad("ANCHOR", "A-OPS", "", "operator dispatch switch of the builder not found")
+		r.bad("ANCHOR", "A-OPS", "", "operator builder of the query builder not found")
 		return
 	}
-	pos := w.pos(od.Switch.Stmt.Pos())
+	r.FuncsAnalysed[fnName(od.Builder)] = true
+	pos := w.pos(od.Builder.Pos())
 	prod := w.producedOperators(g)
-	have := map[string]bool{}
-	for _, ls := range od.Outer {
-		for _, l := range ls {
-			have[l] = true
-		}
-	}
 	for _, op := range sortedKeys(prod) {
-		if have[op] {
+		switch {
+		case od.Type[op] != "" && !od.NilNil[op]:
 			r.ok("A-OPS", "dispatch:"+op, pos, "produced by the parser, handled by the builder ("+od.Type[op]+")")
-		} else {
-			r.bad("A-OPS", "dispatch:"+op, pos, fmt.Sprintf("the parser produces operator %q but the builder's operator dispatch has no case for it: the expression compiles to a nil query", op))
+		default:
+			r.bad("A-OPS", "dispatch:"+op, pos, fmt.Sprintf("the parser produces operator %q but the builder's operator dispatch does not build a query for it: the expression compiles to a nil query", op))
 		}
-	}
-	for _, ls := range od.Outer {
-		inner, has := od.Inner[ls[0]]
-		if !has {
+		if od.Type[op] == "" {
 			continue
 		}
-		in := map[string]bool{}
-		for _, l := range inner {
-			in[l] = true
-		}
-		for _, l := range ls {
-			if in[l] {
-				r.ok("A-OPS", "inner:"+l, pos, "inner dispatch has a case")
+		if _, hasFunc := od.Fn[op]; hasFunc || od.NilFunc[op] {
+			if od.NilFunc[op] {
+				r.bad("A-OPS", "inner:"+op, pos, fmt.Sprintf("operator %q builds a %s whose operator function is nil", op, od.Type[op]))
 			} else {
-				r.bad("A-OPS", "inner:"+l, pos, fmt.Sprintf("operator %q reaches the builder case %v but the inner dispatch has no case for it: the query is built with a nil function", l, ls))
+				r.ok("A-OPS", "inner:"+op, pos, "the built query carries a function for this operator")
 			}
 		}
 	}
@@ -292,84 +273,61 @@ func (w *World) checkCmpWrapper(r *Report, op string, fn *ssa.Function) {
 	}
 }
 
+// checkArithWrapper: the function bound to an arithmetic operator, followed
+// with symbolic operands m and n (the to-number conversion standing for
+// "number of <its argument>"), returns number(m) OP number(n) in this order on
+// every path — whatever helpers, callbacks or locals it is written with.
 func (w *World) checkArithWrapper(r *Report, op string, fn *ssa.Function) {
 	key := "bind:" + op
-	var cb *ssa.Function
-	var helper *ssa.Function
-	okOrder := false
-	eachInstr(fn, false, func(_ *ssa.Function, in ssa.Instruction) {
-		c, ok := in.(*ssa.Call)
-		if !ok || c.Call.StaticCallee() == nil || !w.inPkg(c.Call.StaticCallee()) {
+	_, num, _ := w.conversionFns()
+	numFn := w.fnByString(num)
+	if numFn == nil {
+		r.undec("A-OPS", key, w.pos(fn.Pos()), "to-number conversion not found")
+		return
+	}
+	if len(fn.Params) != 3 {
+		r.undec("A-OPS", key, w.pos(fn.Pos()), "arithmetic operator function does not take (context, left, right)")
+		return
+	}
+	var hooks AHooks
+	hooks.Call = func(ai *AInterp, st *AState, site ssa.CallInstruction, callee *ssa.Function, args []AVal) (bool, AVal) {
+		if callee == numFn && len(args) == 2 {
+			return true, AVal{Kind: avUnknown, Tag: "number(" + args[1].Tag + ")"}
+		}
+		return false, AVal{}
+	}
+	ai := w.newInterp(hooks)
+	outs := ai.Exec(fn, []AVal{{Kind: avUnknown, Tag: "ctx"}, {Kind: avUnknown, Tag: "m"}, {Kind: avUnknown, Tag: "n"}}, nil, newAState())
+	pos := w.pos(fn.Pos())
+	if len(outs) == 0 {
+		r.undec("A-OPS", key, pos, "arithmetic operator function could not be followed")
+		return
+	}
+	for _, o := range outs {
+		if o.Cut || o.Panicked {
+			r.undec("A-OPS", key, pos, "a path of the arithmetic operator function could not be followed to a result")
 			return
 		}
-		for _, a := range c.Call.Args {
-			switch v := a.(type) {
-			case *ssa.Function:
-				cb = v
-			case *ssa.MakeClosure:
-				cb, _ = v.Fn.(*ssa.Function)
-			}
-		}
-		if cb != nil {
-			helper = c.Call.StaticCallee()
-			if len(fn.Params) == 3 && len(c.Call.Args) >= 3 && c.Call.Args[1] == ssa.Value(fn.Params[1]) && c.Call.Args[2] == ssa.Value(fn.Params[2]) {
-				okOrder = true
-			}
-		}
-	})
-	if cb == nil || helper == nil {
-		r.undec("A-OPS", key, w.pos(fn.Pos()), "arithmetic wrapper shape not recognised")
-		return
-	}
-	if !okOrder {
-		r.bad("A-OPS", key, w.pos(fn.Pos()), "operands are not passed on in (left, right) order")
-		return
-	}
-	// callback body
-	var bin *ssa.BinOp
-	var modCall *ssa.Call
-	eachInstr(cb, false, func(_ *ssa.Function, in ssa.Instruction) {
-		switch x := in.(type) {
-		case *ssa.BinOp:
-			if bin == nil || x.Op == token.REM {
-				bin = x
-			}
-		case *ssa.Call:
-			if f := x.Call.StaticCallee(); f != nil && f.Pkg != nil && f.Pkg.Pkg.Path() == "math" && f.Name() == "Mod" {
-				modCall = x
-			}
-		}
-	})
-	if op == "mod" {
-		switch {
-		case modCall != nil && len(cb.Params) == 2 && modCall.Call.Args[0] == ssa.Value(cb.Params[0]) && modCall.Call.Args[1] == ssa.Value(cb.Params[1]):
-			r.ok("A-OPS", key, w.pos(cb.Pos()), "mod = math.Mod(a, b)")
-		case bin != nil && bin.Op == token.REM:
-			r.ok("A-OPS", key, w.pos(cb.Pos()), "mod = integer remainder of the truncated operands")
-		default:
-			r.bad("A-OPS", key, w.pos(cb.Pos()), "mod is not computed as a remainder of (a, b)")
-		}
-	} else {
-		want := arithTokens[op]
-		if bin != nil && bin.Op == want && len(cb.Params) == 2 && bin.X == ssa.Value(cb.Params[0]) && bin.Y == ssa.Value(cb.Params[1]) && isFloat64(bin.Type()) {
-			// returned directly
-			ret := false
-			for _, b := range cb.Blocks {
-				if rt, ok := normalReturn(b); ok && len(rt.Results) == 1 && rt.Results[0] == ssa.Value(bin) {
-					ret = true
-				}
-			}
-			if ret {
-				r.ok("A-OPS", key, w.pos(cb.Pos()), fmt.Sprintf("%s = float64 a %s b", op, want))
+		e := o.Ret.Expr
+		got := o.Ret.String()
+		okv := false
+		if e != nil && len(e.Args) == 2 && e.Args[0].Tag == "number(m)" && e.Args[1].Tag == "number(n)" {
+			if op == "mod" {
+				okv = e.Call == "math.Mod" || e.Op == token.REM
 			} else {
-				r.bad("A-OPS", key, w.pos(cb.Pos()), "the result of the float64 operation is not what is returned")
+				okv = e.Call == "" && e.Op == arithTokens[op]
 			}
-		} else {
-			r.bad("A-OPS", key, w.pos(cb.Pos()), fmt.Sprintf("operator %q is not bound to the float64 operation a %s b on its operands in order", op, want))
+		}
+		if !okv {
+			want := "number(m) " + arithTokens[op].String() + " number(n)"
+			if op == "mod" {
+				want = "math.Mod(number(m), number(n))"
+			}
+			r.bad("A-OPS", key, pos, fmt.Sprintf("operator %q is bound to %s, which computes %s; XPath: %s (float64 operation of that name on the converted operands, left first)", op, fn.Name(), got, want))
+			return
 		}
 	}
-	// helper: asNumber(t, m), asNumber(t, n) in order; returns cb(a, b)
-	w.checkNumericHelper(r, helper)
+	r.ok("A-OPS", key, pos, fmt.Sprintf("%s = number(left) %s number(right) on every path", op, op))
 }
 
 func isFloat64(t types.Type) bool {
@@ -422,60 +380,31 @@ func (w *World) checkNumericHelper(r *Report, h *ssa.Function) {
 }
 
 func (w *World) checkOrAndFlag(r *Report, od *opDispatch) {
-	// the case with labels or/and: the bool field of the built literal is true exactly for "or"
-	for _, c := range od.Switch.Cases {
-		isBool := false
-		for _, l := range c.Labels {
-			if l == "or" || l == "and" {
-				isBool = true
-			}
-		}
-		if !isBool {
-			continue
-		}
-		pos := w.pos(c.Clause.Pos())
-		if len(c.Labels) != 2 {
-			r.bad("A-OPS", "or-and", pos, "or/and are not handled by one case")
-			return
-		}
-		// find `if root.Op == "or" { flag = true }` or `flag := root.Op == "or"`
-		okFlag := false
-		ast.Inspect(c.Clause, func(x ast.Node) bool {
-			be, ok := x.(*ast.BinaryExpr)
-			if !ok || be.Op != token.EQL {
-				return true
-			}
-			if s, ok := w.constStr(be.Y); ok && s == "or" {
-				okFlag = true
-			}
-			return true
-		})
-		neg := false
-		ast.Inspect(c.Clause, func(x ast.Node) bool {
-			be, ok := x.(*ast.BinaryExpr)
-			if ok && (be.Op == token.NEQ) {
-				if s, ok := w.constStr(be.Y); ok && (s == "or" || s == "and") {
-					neg = true
-				}
-			}
-			if ok && be.Op == token.EQL {
-				if s, ok := w.constStr(be.Y); ok && s == "and" {
-					neg = true
-				}
-			}
-			return true
-		})
-		if okFlag && !neg {
-			r.ok("A-OPS", "or-and", pos, "the disjunction flag is set exactly for \"or\"")
-		} else {
-			r.bad("A-OPS", "or-and", pos, "the flag distinguishing or from and is not `op == \"or\"`")
-		}
+	pos := w.pos(od.Builder.Pos())
+	if od.Type["or"] == "" || od.Type["and"] == "" {
+		r.bad("A-OPS", "or-and", pos, "no query built for or/and")
 		return
 	}
-	r.bad("A-OPS", "or-and", w.pos(od.Switch.Stmt.Pos()), "no case for or/and")
+	if od.Type["or"] != od.Type["and"] {
+		r.bad("A-OPS", "or-and", pos, "or/and are not built as the same query type")
+		return
+	}
+	// a bool field that is true for "or" and false for "and"
+	good := false
+	for f, v := range od.Flags["or"] {
+		if v && !od.Flags["and"][f] {
+			if _, ok := od.Flags["and"][f]; ok {
+				good = true
+			}
+		}
+	}
+	if good {
+		r.ok("A-OPS", "or-and", pos, "the disjunction flag is set exactly for \"or\"")
+	} else {
+		r.bad("A-OPS", "or-and", pos, fmt.Sprintf("the flag distinguishing or from and is not `op == \"or\"` (or: %v, and: %v)", od.Flags["or"], od.Flags["and"]))
+	}
 }
 
-// primitive comparison functions: func(op string, a, b T) bool with a string switch
 func (w *World) primitiveCmps() []*ssa.Function {
 	var out []*ssa.Function
 	for _, fn := range w.AllFuncs {
@@ -645,11 +574,7 @@ func (w *World) typeIndexer() (fn *ssa.Function, idx map[string]int64, nvals int
 	if od == nil {
 		return nil, nil, 0
 	}
-	obj := od.Func["="]
-	if obj == nil {
-		return nil, nil, 0
-	}
-	wr := w.funcValueOf(obj)
+	wr := od.Fn["="]
 	if wr == nil {
 		return nil, nil, 0
 	}
